@@ -1061,6 +1061,17 @@ func checkMain(args []string) int {
 			cov["inconclusive_detail"] = c.inconclusive
 		}
 	}
+	if cov != nil {
+		if n, _ := cov["evaluations"].(int); n < 1 {
+			c.broken = true
+			c.notes = append(c.notes, "no run was executed")
+		}
+		if sm, _ := cov["samples"].([]any); len(sm) == 0 && !c.broken {
+			c.broken = true
+			c.notes = append(c.notes, "no sample trace was collected")
+			fmt.Fprintln(os.Stderr, "NOTE: no sample trace was collected")
+		}
+	}
 	if c.broken {
 		fmt.Fprintln(os.Stderr, "check could not be completed (exit 2); no verdict")
 		return 2
@@ -1181,8 +1192,11 @@ func (c *checker) raceCheck() (map[string]any, int, int) {
 		env := []string{fmt.Sprintf("VERIF_PROCS=%d", p.procs), "GORACE=halt_on_error=0 log_path=" + filepath.Join(c.workDir, fmt.Sprintf("race-p%d", p.procs))}
 		c.workers = max(2, savedWorkers/min(p.procs, 4))
 		savedBudget := c.budget
+		if c.tier == "quick" {
+			c.budget = savedBudget * 3 / 5
+		}
 		if p.procs > 1 {
-			c.budget = savedBudget / 2
+			c.budget = c.budget / 2
 		}
 		br := c.runBatch(bin, "main", p.runs, env)
 		c.budget = savedBudget
